@@ -8,6 +8,7 @@ from vstat.cfg import cfg_of, EXIT
 from vstat.sigs import bind
 from vstat import algebra
 from . import c09
+from .kwdict import local_dict_stores, star_star_name
 
 DF = "virocon.dependencies.DependenceFunction"
 FT = "virocon._fitting"
@@ -85,7 +86,34 @@ def _ev(lit, method, has_bounds):
         return not has_bounds
     if lit[0] == "isnone" and mentions(lit[1], P("bounds")):
         return not has_bounds
+    if lit[0] in ("and", "or"):
+        vs = [_ev(x, method, has_bounds) for x in lit[1]]
+        if lit[0] == "and":
+            return False if any(v is False for v in vs) else None if any(v is None for v in vs) else True
+        return True if any(v is True for v in vs) else None if any(v is None for v in vs) else False
     return None
+
+
+def _expand_kwargs(fn, b, pcs, st, t, method, hb):
+    """The call term with a ** local dict replaced by the entries that are set under this (method, bounds) case."""
+    if not any(k == "**" for k, _ in t[3]):
+        return t
+    node = next((n for n in ast.walk(st) if isinstance(n, ast.Call) and b.term(n, st) == t), None)
+    name = star_star_name(node) if node is not None else None
+    if name is None:
+        return ("unknown", "** argument not resolved")
+    cfg = cfg_of(fn)
+    kws = {k: v for k, v in t[3] if k != "**"}
+    for key, val, pc, s2 in local_dict_stores(fn, b, pcs, name):
+        if cfg.enclosing_loops(s2) or not cfg.dominates(cfg.node(next(x for x in cfg.all_stmts() if isinstance(x, ast.Assign) and any(isinstance(g, ast.Name) and g.id == name for g in x.targets))), cfg.node(st)):
+            return ("unknown", "keyword dict filled in a loop or not initialised on every path")
+        vals = [_ev(l, method, hb) for l in pc]
+        if any(v is False for v in vals):
+            continue
+        if any(v is None for v in vals):
+            return ("unknown", f"keyword '{key}' set under an undecided condition")
+        kws[key] = val
+    return ("call", t[1], t[2], tuple(sorted(kws.items())))
 
 
 def bounds(prog, rep):
@@ -104,7 +132,7 @@ def bounds(prog, rep):
             for st, t in cf:
                 vals = [_ev(l, method, hb) for l in pcs.of(st)]
                 if all(v is True for v in vals):
-                    reach.append((st, t))
+                    reach.append((st, _expand_kwargs(fn, b, pcs, st, t, method, hb)))
                 elif all(v is not False for v in vals):
                     reach.append((st, ("unknown", "undecided path condition")))
             rr = [exception_name(st, b) for st in raises if all(_ev(l, method, hb) is True for l in pcs.of(st))]
@@ -213,17 +241,20 @@ def start_result(prog, rep):
     ok = len(ff) == 1 and len(fc) == 1
     if ok:
         st, t = ff[0]
-        args = t[2]
         x, y = P("x"), P("y")
-        ok1 = len(args) == 7 and args[0] == SELF and args[1:4] == (x, y, p0) and args[5] == bnd and ("isnone", cons) in pcs.of(st)
-        meth = args[4] if len(args) > 4 else NONE
-        wts = args[6] if len(args) > 6 else NONE
+        # arguments bound to the callee's own formals (positional or keyword spelling)
+        a1 = bind(t, prog.func(f"{FT}.fit_function").positional_params) or {}
+        ok1 = set(a1) == {"func", "x", "y", "p0", "method", "bounds", "weights"} and a1["func"] == SELF and (a1["x"], a1["y"], a1["p0"]) == (x, y, p0) \
+            and a1["bounds"] == bnd and ("isnone", cons) in pcs.of(st)
+        meth = a1.get("method", NONE)
+        wts = a1.get("weights", NONE)
         ok1 = ok1 and set(alts(meth)) == {("const", "wlsq"), ("const", "lsq")} and set(alts(wts)) <= {("call", w, (x, y), ()), w, NONE} and ("call", w, (x, y), ()) in alts(wts)
         rep.check(ok1, "C14.start", f"{q}:unconstrained", fn.where(st), "fit_function(self, x, y, p0, method, self.bounds, weights) when no constraints are declared",
                   f"without constraints the function itself must be fitted to (x, y) from the current parameter values with its bounds and weights(x, y); found {show(t)[:220]}")
         st2, t2 = fc[0]
-        a2 = t2[2]
-        ok2 = len(a2) == 8 and a2[0] == SELF and a2[1:4] == (x, y, p0) and a2[5] == bnd and a2[6] == cons and ("not", ("isnone", cons)) in pcs.of(st2)
+        a2 = bind(t2, prog.func(f"{FT}.fit_constrained_function").positional_params) or {}
+        ok2 = set(a2) == {"func", "x", "y", "p0", "method", "bounds", "constraints", "weights"} and a2["func"] == SELF and (a2["x"], a2["y"], a2["p0"]) == (x, y, p0) \
+            and a2["bounds"] == bnd and a2["constraints"] == cons and ("not", ("isnone", cons)) in pcs.of(st2) and a2["method"] == meth and a2["weights"] == wts
         rep.check(ok2, "C14.start", f"{q}:constrained", fn.where(st2), "fit_constrained_function(self, x, y, p0, method, self.bounds, self.constraints, weights) when constraints are declared",
                   f"with constraints the constrained fitter must receive the function, data, start values, bounds AND the declared constraints; found {show(t2)[:220]}")
     else:
@@ -235,7 +266,7 @@ def start_result(prog, rep):
         if t[0] == "call" and t[1] == G("dict") and len(t[2]) == 1 and t[2][0][0] == "call" and t[2][0][1] == G("zip"):
             k, v = t[2][0][2]
             res = {a for a in alts(v)}
-            okr = k == ("call", ("attr", params, "keys"), (), ()) and all(a[0] == "call" and a[1][0] == "func" and a[1][1].startswith(f"{FT}.fit_") for a in res) and len(res) == 2
+            okr = k in (("call", ("attr", params, "keys"), (), ()), params) and all(a[0] == "call" and a[1][0] == "func" and a[1][1].startswith(f"{FT}.fit_") for a in res) and len(res) == 2
     rep.check(okr, "C14.start", f"{q}:result", fn.where(upd[0]) if upd else fn.where(), "self.parameters = dict(zip(self.parameters.keys(), popt))",
               "the optimiser's result must be zipped back onto the same parameter names in the same order")
     return upd
